@@ -10,6 +10,9 @@ import GaleneVerif.Engine.FuzzMisc
 import GaleneVerif.Engine.Paths
 import GaleneVerif.Engine.Writer
 import GaleneVerif.Engine.Store
+import GaleneVerif.Engine.Group
+import GaleneVerif.Engine.Unbounded
+import GaleneVerif.Engine.Locks
 /-
 Line-protocol driver.  usage: driver <engine> [oracle-only] < trace
 `oracle-only` (failing-input search): model/impl mismatches do not end the case;
@@ -85,7 +88,10 @@ def engines : List (String × EngineDef) :=
     ("fuzzmisc", Galene.Engine.FuzzMisc.engine),
     ("paths", Galene.Engine.Paths.engine),
     ("writer", Galene.Engine.Writer.engine),
-    ("store", Galene.Engine.Store.engine) ]
+    ("store", Galene.Engine.Store.engine),
+    ("group", Galene.Engine.Group.engine),
+    ("unbounded", Galene.Engine.Unbounded.engine),
+    ("locks", Galene.Engine.Locks.engine) ]
 
 def main (args : List String) : IO UInt32 := do
   let (name?, oracleOnly) := match args with
